@@ -287,7 +287,8 @@ def r2_r3_r4(ctx, sch):
     ok = bool(first) and norm(first[0].value) == "[self._get_feature(f.id)]"
     ctx.ob("R4", ok, "the feature stored under the key itself is a candidate", func=cm, sig="candidates start with %s" % (norm(first[0].value) if first else None))
     ad = [c for c in calls_in(dm.node) if call_attr(c) == "_add_duplicate"]
-    ctx.floor("R4", len(ad), 1, "duplicate bookkeeping calls in the dispatcher")
+    ctx.ob("R4", len(ad) >= 1, "a non-mergeable newcomer is recorded in `duplicates` (so later arrivals can find it)", func=dm,
+           sig="duplicate bookkeeping present" if ad else "the dispatcher never records a renamed newcomer in `duplicates`")
     for c in ad:
         a0 = _resolve_local(c.args[0], dm) if c.args else None
         ok = len(c.args) == 2 and a0 is not None and norm(a0) == "f.id" and norm(c.args[1]).endswith(".id") and norm(c.args[1]) != "f.id"
@@ -311,30 +312,131 @@ def r2_r3_r4(ctx, sch):
     ctx.ob("R4", ok, "the duplicates row is (idspecid, newid) in that order", node=ins[0].call, func=adf, sig="duplicates row %s -> %s" % (vals, cols))
 
 
+class _Walk:
+    """Structured walk of statements under a partial environment
+    {final strategy, fixed is None}: unknown tests fork.  Collects whether a
+    target node can be executed and how the block can end."""
+
+    def __init__(self, env, targets):
+        self.env, self.targets = env, targets
+        self.hit = False
+
+    def test(self, t):
+        e = self.env
+        if isinstance(t, ast.Compare) and len(t.ops) == 1:
+            l, r = t.left, t.comparators[0]
+            if is_name(l, e["fs_name"]) and const_str(r) is not None:
+                v = e["fs"] == const_str(r)
+                return v if isinstance(t.ops[0], ast.Eq) else (not v) if isinstance(t.ops[0], ast.NotEq) else None
+            if is_name(l, e["fs_name"]) and isinstance(t.ops[0], (ast.In, ast.NotIn)) and isinstance(r, (ast.Tuple, ast.List, ast.Set)):
+                v = e["fs"] in [const_str(x) for x in r.elts]
+                return v if isinstance(t.ops[0], ast.In) else not v
+            if is_name(l, e["fixed_name"]) and isinstance(r, ast.Constant) and r.value is None:
+                v = e["fixed_none"]
+                return v if isinstance(t.ops[0], (ast.Is, ast.Eq)) else not v
+        if is_name(t, e["fixed_name"]):
+            return not e["fixed_none"]
+        if isinstance(t, ast.UnaryOp) and isinstance(t.op, ast.Not):
+            v = self.test(t.operand)
+            return None if v is None else not v
+        if isinstance(t, ast.BoolOp):
+            vs = [self.test(v) for v in t.values]
+            if isinstance(t.op, ast.And):
+                if any(v is False for v in vs):
+                    return False
+                return True if all(v is True for v in vs) else None
+            if any(v is True for v in vs):
+                return True
+            return False if all(v is False for v in vs) else None
+        return None
+
+    def block(self, stmts):
+        """-> set of endings: 'fall', 'continue', 'break', 'raise', 'return'"""
+        ends = {"fall"}
+        for st in stmts:
+            if "fall" not in ends:
+                break
+            ends.discard("fall")
+            ends |= self.stmt(st)
+        return ends
+
+    def stmt(self, st):
+        if any(st is t or any(x is t for x in ast.walk(st)) for t in self.targets) and not isinstance(st, (ast.If, ast.For, ast.While, ast.Try, ast.With)):
+            self.hit = True
+        if isinstance(st, ast.If):
+            v = self.test(st.test)
+            out = set()
+            if v is not False:
+                out |= self.block(st.body)
+            if v is not True:
+                out |= self.block(st.orelse) if st.orelse else {"fall"}
+            return out
+        if isinstance(st, (ast.For, ast.While)):
+            inner = self.block(st.body)
+            out = {"fall"}
+            out |= {x for x in inner if x in ("raise", "return")}
+            return out
+        if isinstance(st, ast.With):
+            return self.block(st.body)
+        if isinstance(st, ast.Try):
+            out = self.block(st.body)
+            for h in st.handlers:
+                out |= self.block(h.body)
+            return out
+        if isinstance(st, ast.Continue):
+            return {"continue"}
+        if isinstance(st, ast.Break):
+            return {"break"}
+        if isinstance(st, ast.Raise):
+            return {"raise"}
+        if isinstance(st, ast.Return):
+            return {"return"}
+        return {"fall"}
+
+
 def r5(ctx, sch):
     for m in populate_methods(ctx):
         name = m.qual.split(".")[1]
         h, table, fixed, fs, fv, loop = handler_table(ctx, m, sch)
-        cfg = cfg_of(m)
         rel = [s for s in execute_sites(ctx, [m]) if s.stmts and s.stmts[0].verb == "INSERT" and s.stmts[0].table.lower() == "relations"]
         ctx.floor("R5", len(rel), 1, "relation inserts in %s" % name)
-        relnodes = {cfg.node_for(s.call).id for s in rel}
-        # nodes in the handler that write the newcomer (or merge it)
-        writers = set()
-        for c in [x for x in ast.walk(h) if isinstance(x, ast.Call)]:
-            if call_attr(c) in ("_replace", "_insert", "execute", "executemany"):
-                writers.add(cfg.node_for(c).id)
-        hn = cfg.by_stmt[id(h)].id
-        head = cfg.node_for(loop).id
-        reach = cfg.reachable(hn, avoid=writers | {head})
-        leak = relnodes & reach
+        # statements of the loop body after the try that holds the handler
+        tr = None
+        for p in parents(h):
+            if isinstance(p, ast.Try):
+                tr = p
+                break
+        top = None
+        for p in [tr] + list(parents(tr)):
+            if any(p is b for b in loop.body):
+                top = p
+                break
+        ctx.require(top is not None, "%s: collision handler is not in the import loop body" % m.qual)
+        rest = loop.body[loop.body.index(top) + 1:]
+        env = {"fs_name": fs, "fixed_name": fixed, "fs": "warning", "fixed_none": True}
+        w = _Walk(env, [s.call for s in rel])
+        # the part of the handler after the dispatcher call
+        ends = w.block(h.body)
+        leak = False
+        if "fall" in ends:
+            w.block(rest)
+            leak = w.hit
         ctx.ob("R5", not leak,
-               "%s: when a colliding newcomer is discarded ('warning': the handler writes nothing) none of its Parent/transcript/gene links is "
+               "%s: when a colliding newcomer is discarded ('warning': nothing is written for it) none of its Parent/transcript/gene links is "
                "inserted" % name, node=h, func=m,
                sig="%s: relation insert reachable on the discard path of the collision handler" % name if leak else
                "%s: no relation insert on the discard path" % name,
-               detail=None if not leak else "the handler falls out without writing when final_strategy is 'warning'; control then reaches the "
-                                            "relation INSERT at line %d, which links the *kept* feature's id to the ignored line's parents" % min(cfg.nodes[n].lineno for n in leak))
+               detail=None if not leak else "with final_strategy == 'warning' the handler falls out without writing; control then reaches the "
+                                            "relation INSERT at line %d, which links the *kept* feature's id to the ignored line's parents" % min(s.call.lineno for s in rel))
+        # and the kept strategies still reach it (no link is lost)
+        for strat in ("merge", "replace", "create_unique"):
+            env2 = {"fs_name": fs, "fixed_name": fixed, "fs": strat, "fixed_none": False}
+            w2 = _Walk(env2, [s.call for s in rel])
+            e2 = w2.block(h.body)
+            if "fall" in e2:
+                w2.block(rest)
+            ctx.ob("R5", w2.hit, "%s: under '%s' the newcomer's links are still added (no Parent link is lost)" % (name, strat), node=h, func=m,
+                   sig="%s: relation insert reached under %s" % (name, strat) if w2.hit else "%s: relation insert skipped under %s" % (name, strat), nontrivial=False)
         # replace: the replaced row's links must be dropped
         pool = [m, ctx.proj.func("create._DBCreator._replace")]
         dels = []
